@@ -440,3 +440,56 @@ func init() {
 		},
 	})
 }
+
+func init() {
+	register(&Rule{
+		ID: "reload.result-in-input-order", Props: []string{"C13"}, Floor: 3,
+		Doc: "the three builders produce the new controller / breaker list in the order of the loaded rules: every append to the result happens in one and the same loop over the rules (one element per iteration, reused or newly built). Appending reused objects in an earlier pass yields 'reused first', so the slot consults the rules in another order than the one loaded and reported by the getters",
+		Run: func(c *Ctx) {
+			for _, bn := range builderFuncs {
+				f := c.P.Func(bn)
+				if f == nil {
+					c.AnchorLost(bn)
+					continue
+				}
+				bs := analyseBuilder(f)
+				// loop headers: blocks holding a range-index phi
+				var headers []*ssa.BasicBlock
+				for _, b := range f.Blocks {
+					for _, ins := range b.Instrs {
+						if phi, ok := ins.(*ssa.Phi); ok && phi.Comment == "rangeindex" {
+							headers = append(headers, b)
+							break
+						}
+					}
+				}
+				loopOf := func(b *ssa.BasicBlock) *ssa.BasicBlock {
+					var best *ssa.BasicBlock
+					for _, h := range headers {
+						if h.Dominates(b) && (b == h || blockReach(b)[h]) {
+							if best == nil || best.Dominates(h) {
+								best = h // innermost
+							}
+						}
+					}
+					return best
+				}
+				var first *ssa.BasicBlock
+				ok, outside := true, false
+				for _, ap := range bs.result {
+					l := loopOf(ap.Block())
+					if l == nil {
+						outside = true
+						continue
+					}
+					if first == nil {
+						first = l
+					} else if first != l {
+						ok = false
+					}
+				}
+				c.Check(ok && !outside && len(bs.result) > 0, fnKey(f)+" / single-loop-appends", f.Pos(), "%d append(s) to the result list, all in the same loop over the rules (several loops: %v, outside any loop: %v)", len(bs.result), !ok, outside)
+			}
+		},
+	})
+}
